@@ -65,16 +65,17 @@ var (
 // variance, and that the populations are normally distributed.
 func TwoSampleTTest(x1, x2 TTestSample, alt LocationHypothesis) (*TTestResult, error) {
 	n1, n2 := x1.Weight(), x2.Weight()
-	if n1 == 0 || n2 == 0 {
+	if n1 == 0 || n2 == 0 || n1+n2 <= 2 {
+		// With no degrees of freedom there is no pooled variance.
 		return nil, ErrSampleSize
 	}
 	v1, v2 := x1.Variance(), x2.Variance()
-	if v1 == 0 && v2 == 0 {
-		return nil, ErrZeroVariance
-	}
 
 	dof := n1 + n2 - 2
 	v12 := ((n1-1)*v1 + (n2-1)*v2) / dof
+	if v12 == 0 {
+		return nil, ErrZeroVariance
+	}
 	t := (x1.Mean() - x2.Mean()) / math.Sqrt(v12*(1/n1+1/n2))
 	return newTTestResult(int(n1), int(n2), t, dof, alt), nil
 }
@@ -134,7 +135,8 @@ func PairedTTest(x1, x2 []float64, μ0 float64, alt LocationHypothesis) (*TTestR
 // normal.
 func OneSampleTTest(x TTestSample, μ0 float64, alt LocationHypothesis) (*TTestResult, error) {
 	n, v := x.Weight(), x.Variance()
-	if n == 0 {
+	if n <= 1 {
+		// A single observation leaves no degrees of freedom.
 		return nil, ErrSampleSize
 	}
 	if v == 0 {
